@@ -38,7 +38,7 @@ NextOpt ==
      /\ \E i \in 1..Len(st.prog) : Dead(st.prog, i) /\ st' = [st EXCEPT !.prog = Remove(st.prog, i)]
 NextMatrix ==
   /\ st.mode = "init"
-  /\ \E lv \in Levels, lk \in Links, fn \in Fns, sto \in {"stack", "heap", "static"}, cp \in {0, 1}, n \in Ns, off \in Offs :
+  /\ \E lv \in Levels, lk \in Links, fn \in Fns, sto \in {"stack", "heap", "static", "local"}, cp \in {0, 1}, n \in Ns, off \in Offs :
        st' = [mode |-> "case", level |-> lv, link |-> lk, fn |-> fn, storage |-> sto, constp |-> cp, n |-> n, off |-> off]
 Next == NextOpt \/ NextMatrix
 Spec == Init /\ [][Next]_st
